@@ -18,6 +18,9 @@ CONSTANTS
   CleanSC = "sf-"
   CountRule = "impl"
   EagerCount = TRUE
+  Holds = FALSE
+  MaxTick = 0
+  TickGuard = "impl"
 VIEW view
 INVARIANTS ImplEmitsSound
 CHECK_DEADLOCK FALSE
